@@ -13,7 +13,7 @@ PROPERTY = 'C08'
 FUNCTIONS = ['emd.sift.ensemble_sift', 'emd.sift._sift_with_noise', 'emd.sift.complete_ensemble_sift',
              'emd.sift.sift (opaque in the noise/averaging clauses, real in the zero-noise clause)']
 BOUNDS = {
-    'quick': 'ensemble_sift with 2..3 members on 1..2 worker processes (every job-to-worker assignment up to worker renaming is a solver-side '
+    'quick': 'ensemble_sift with 2..3 members on 1..2 worker processes, 5 members on 1 and 6 members on 2 (more members than the default ensemble size and than any plausible dispatch block) (every job-to-worker assignment up to worker renaming is a solver-side '
              'choice), noise modes {single, flip}; complete_ensemble_sift with 2 members; N = 4 symbolic samples; noise draws are solver variables '
              'named by (stream state, position), process fork copies the stream state; zero-noise clause: N = 6, caps 1..2, real sift',
     'thorough': 'up to 6 members on up to 4 workers; complete ensemble with up to 4 members on up to 3 workers; zero-noise clause N <= 7, caps 1..3, fixed(1) and fixed(2)',
@@ -35,7 +35,7 @@ OPTS = {'quick': {'sample_every': 3, 'concolic': False}, 'thorough': {'sample_ev
 def configs(tier):
     q = tier == 'quick'
     out = []
-    grid = [(2, 1), (2, 2), (3, 2)] if q else [(2, 1), (2, 2), (3, 2), (4, 2), (3, 3), (4, 3), (5, 2), (5, 3), (5, 4), (6, 3)]
+    grid = [(2, 1), (2, 2), (3, 2), (5, 1), (6, 2)] if q else [(2, 1), (2, 2), (3, 2), (5, 1), (4, 2), (3, 3), (4, 3), (5, 2), (5, 3), (5, 4), (6, 2), (6, 3), (9, 2)]
     for nens, P in grid:
         for mode in ('single', 'flip'):
             out.append(('ensemble-n%d-P%d-%s' % (nens, P, mode), {'kind': 'ens', 'nens': nens, 'P': P, 'mode': mode, 'N': 4}))
